@@ -5,24 +5,24 @@ From CF Require Import PyDict.
 Open Scope Z_scope.
 
 (* chipfiring/CFiringScript.py :: CFiringScript.get_firings   reads ['self_graph_vertices', 'self_script'], writes [], may raise *)
-Definition CFiringScript_get_firings (self_graph_vertices : list nat) (self_script : dictZ) (vertex_name : nat) : option Z :=
+Definition CFiringScript_get_firings (self_graph_vertices : list nat) (self_script : dictZ) (vertex_name : nat) : pyres (unit) Z :=
   let vertex := vertex_name in
   if (negb (s_mem vertex self_graph_vertices)) then
-  None
+  PyExn tt
   else
-  Some ((d_get vertex 0 self_script)).
+  PyOk ((d_get vertex 0 self_script)).
 
 (* chipfiring/CFiringScript.py :: CFiringScript.set_firings   reads ['self_graph_vertices', 'self_script'], writes ['self_script'], may raise *)
-Definition CFiringScript_set_firings (self_graph_vertices : list nat) (self_script : dictZ) (vertex_name : nat) (firings : Z) : option (dictZ) :=
+Definition CFiringScript_set_firings (self_graph_vertices : list nat) (self_script : dictZ) (vertex_name : nat) (firings : Z) : pyres (dictZ) (dictZ) :=
   let vertex := vertex_name in
   if (negb (s_mem vertex self_graph_vertices)) then
-  None
+  PyExn self_script
   else
   let self_script := d_set vertex firings self_script in
-  Some self_script.
+  PyOk self_script.
 
 (* chipfiring/CFiringScript.py :: CFiringScript.update_firings   reads ['self_graph_vertices', 'self_script'], writes ['self_script'], may raise *)
-Definition CFiringScript_update_firings (self_graph_vertices : list nat) (self_script : dictZ) (vertex_name : nat) (additional_firings : Z) : option (dictZ) :=
-  match CFiringScript_get_firings self_graph_vertices self_script vertex_name with None => None | Some current_firings =>
-  match CFiringScript_set_firings self_graph_vertices self_script vertex_name (current_firings + additional_firings) with None => None | Some self_script =>
-  Some self_script end end.
+Definition CFiringScript_update_firings (self_graph_vertices : list nat) (self_script : dictZ) (vertex_name : nat) (additional_firings : Z) : pyres (dictZ) (dictZ) :=
+  match CFiringScript_get_firings self_graph_vertices self_script vertex_name with PyExn _ => PyExn self_script | PyOk current_firings =>
+  match CFiringScript_set_firings self_graph_vertices self_script vertex_name (current_firings + additional_firings) with PyExn self_script => PyExn self_script | PyOk self_script =>
+  PyOk self_script end end.
